@@ -12,6 +12,7 @@ Node counts are covered up to `tableN = 24`.
     this is the "agree to quadrature accuracy" clause.
 -/
 import ShapeVerif.Proofs.Quadrature
+import ShapeVerif.Gen.Tables
 
 namespace ShapeVerif.C04
 open ShapeVerif
@@ -184,5 +185,22 @@ example : Jordan.area lens.invert = - (95 / 12) := by decide +kernel
 /-- the "quadrature accuracy" clause is real: the first moment of a cubic arc is NOT exact -/
 example : vertical [⟨0, 0⟩, ⟨1, 2⟩, ⟨3, 0⟩, ⟨4, 1⟩] 2 0 ≠ exactVertical [⟨0, 0⟩, ⟨1, 2⟩, ⟨3, 0⟩, ⟨4, 1⟩] 2 0 := by
   decide +kernel
+
+
+/-! ### tie to the source: formulas regenerated from `IntegratePlanar.vertical` and `IntegrateShape.polynomial` on every run -/
+
+/-- the default node count the code uses is the one the exactness theorems above are about (3 + a + b + degree) -/
+theorem translated_node_count (a b deg : Nat) : Gen.verticalNodes a b deg = 3 + a + b + deg := by
+  unfold Gen.verticalNodes; omega
+
+/-- `IntegrateShape.polynomial(S, a, b)` integrates x^(a+1) y^b dy and divides by a+1 (Green's theorem for the moment) -/
+theorem translated_moment_reduction (a b : Nat) :
+    Gen.momentExpX a b = a + 1 ∧ Gen.momentExpY a b = b ∧ Gen.momentDivisor a b = a + 1 := by
+  unfold Gen.momentExpX Gen.momentExpY Gen.momentDivisor; omega
+
+/-- hence the model's `vertical` is the code's integral with the regenerated node count -/
+theorem code_vertical_is_model_vertical (s : Seg) (a b : Nat) :
+    verticalN s a b (Gen.verticalNodes a b s.degree) = vertical s a b := by
+  rw [translated_node_count]; rfl
 
 end ShapeVerif.C04
